@@ -167,11 +167,18 @@ def shipped(ctx, n):
 
 
 THEOREMS += ["Wtf.C01.universal_modelled"]   # SearchUniversal over every modelled layer (Props/C01b.lean)
+# the idf >= 0 hypothesis for the formula that is in the source: the argument of math.Log in bm25IDF is translated on every run
+# (Gen/Bm25F.lean) and shown >= 1 over the reals for df <= N (Props/C01d.lean)
+THEOREMS += ["Wtf.C01." + t for t in ("idf_source_arg_ge_one", "idf_source_nonneg", "idfNonneg_source")]
+ASSERTIONS += ["bm25f:" + s for s in ("fieldBM25", "fieldBM25:param-types", "fieldBM25:params", "fieldBM25:body", "termBM25F", "termBM25F:body",
+                                      "bm25IDF", "bm25IDF:shape", "bm25IDF:arg")]
+PROP["level_text"] += (" Props/C01d.lean: the argument of math.Log in bm25IDF is translated from the source on every run and shown >= 1 over the reals for "
+                       "df <= N (`idf_source_nonneg`), so the idf >= 0 hypothesis is discharged for the source's formula up to math.Log ~ Real.log.")
 
 
 def run(ctx):
     ctx.stage_xlate(required_assertions=ASSERTIONS)
-    ctx.stage_prove(THEOREMS, extra_targets=["WtfModel.Props.C01b"])
+    ctx.stage_prove(THEOREMS, extra_targets=["WtfModel.Props.C01b", "WtfModel.Props.C01d"])
     if not ctx.stage_build():
         return
     quick = ctx.tier == "quick"
